@@ -259,6 +259,18 @@ def run(tier):
     for tup in fam_tuples:
         run_tuple(tools, work, idx, [("ok", f, None, None) for f in tup], handles[idx % nsh])
         idx += 1
+    # an input that cannot be read as C-DNS listed FIRST, followed by inputs whose version is not the library's own: the first
+    # READABLE input decides which version the merged file has and which inputs fit
+    import re as _re
+    hno = lambda f: int(_re.findall(r"\d+", f.name)[0])
+    odd = [f for f in files if "_idle" not in f.name and hno(f) % 5 == 4 and hno(f) < (14 if tier == "quick" else 60)]
+    plain = [f for f in files if "_idle" not in f.name and hno(f) % 5 != 4][:2]
+    chk.extra["inputs_with_another_version"] = len(odd)
+    for bi, bad in enumerate(("missing", "garbage", "empty")):
+        for fm in odd[: (3 if tier == "quick" else 12)]:
+            for tup in ([fm], [fm, plain[0]], [plain[bi % 2], fm]):
+                run_tuple(tools, work, idx, [(bad, None, None, None)] + [("ok", f, None, None) for f in tup], handles[idx % nsh])
+                idx += 1
     for i, f in enumerate(files[:6 if tier == "quick" else 30]):
         run_counts(tools, work, 10000 + i, f.read_bytes(), handles[i % nsh])
     # beyond the listed properties: which items / blocks cdns-items and cdns-blocks show (Tools.tla; mismatches are drift notes)
